@@ -273,6 +273,12 @@ impl ControlFlowGraph {
                     self.graph.insert_edge(edge)?;
                 }
 
+                // the merged-away block's contents now live in merge_index: if it was
+                // the exit, the exit moves with it
+                if self.exit == Some(successor_index) {
+                    self.exit = Some(merge_index);
+                }
+
                 // remove the block we just merged
                 self.graph.remove_vertex(successor_index)?;
             }
